@@ -3,6 +3,7 @@ package interp
 // Intercepts for the harness runtime package (…/pkg/verifrt).
 
 import (
+	"os"
 	"fmt"
 	"go/types"
 	"regexp"
@@ -129,6 +130,9 @@ func (e *Engine) verifrtExternal(name string) externalFn {
 				v = itf.v
 			}
 			ex.obsTerms = append(ex.obsTerms, obsTerm{a[0].(string), snapshot(v)})
+			if os.Getenv("GOSYMX_PRINT_OBSERVE") != "" {
+				fmt.Fprintf(os.Stderr, "OBSERVE %s: %v\n", a[0], v)
+			}
 			return nil
 		}
 	case "And":
